@@ -3,7 +3,8 @@
     parent/parent.py   Parent.lift_child_location_to_parent, first_ancestor_of_type, has_ancestor_*
     location/location.py  lift_over_to_first_ancestor_of_type, lift_over_to_sequence, location_relative_to
     location/location_impl.py  _union_preserve_overlaps, SingleInterval/CompoundInterval._location_relative_to
-    gene/interval.py   AbstractInterval.liftover_location_to_seq_chunk_parent (chunk branch)
+    gene/interval.py   AbstractInterval.liftover_location_to_seq_chunk_parent (all branches, see `liftoverToTarget`)
+    io/parser.py       seq_chunk_to_parent (`mkChunk`)
 
   A hierarchy is the list of ancestor levels of a location, nearest first.  Level i ≥ 1 carries the
   placement of level i-1 on it (`Parent.location` of that ancestor); a missing placement is `none`.
@@ -157,8 +158,128 @@ def relativeToSingle (self : Location) (w : Blk) (wst : Strand) (optimize : Bool
 def chunkDown (loc : Location) (w : Blk) (wst : Strand) : R Location :=
   -- `if not chunk_parent.sequence:` — an empty Sequence is falsy
   if w.len = 0 then throw .NullSequence else
+  -- `location.reset_parent(chunk_parent.parent)`: `_EmptyLocation.reset_parent` raises
+  if loc == .empty then throw .EmptyLocation else
   match relativeToSingle loc w wst false with
   | .error .LocationOverlap => pure .empty
   | r => r
+
+/-! ### relocate: the whole of `liftover_location_to_seq_chunk_parent` on hierarchies with real sequence
+
+  The harness (harness/impl_lift.py `relocate`) cuts chunk A = window `w1` on strand `s1` out of the genome `G`
+  with `seq_chunk_to_parent`, optionally puts a spliced sequence "tx" on it (placement `tx`), constructs the
+  child location on the nearest of the two, builds the target (another chunk of `G`, or `G` itself as a
+  chromosome Parent) and calls `AbstractInterval.liftover_location_to_seq_chunk_parent(child, target)`;
+  the answer is the returned location and `str(location.extract_sequence())`. -/
+
+/-- `ALPHABET_TO_NUCLEOTIDE_COMPLEMENT[NT_STRICT]` (other letters never occur in this leg) -/
+def complNT : Char → Char
+  | 'A' => 'T' | 'C' => 'G' | 'G' => 'C' | 'T' => 'A' | c => c
+
+/-- `Sequence.reverse_complement`: `"".join(rc_map[c] for c in reversed(str(self)))` -/
+def revComp (s : List Char) : List Char := (s.reverse).map complNT
+
+/-- `str(sequence)[a:b]` (Python slices clamp) -/
+def pySlice (s : List Char) (a b : Nat) : List Char := (s.drop a).take (b - a)
+
+/-- `SingleInterval.extract_sequence` -/
+def extractBlock (s : List Char) (b : Blk) : Strand → R (List Char)
+  | .plus => pure (pySlice s b.1 b.2)
+  | .minus => pure (revComp (pySlice s b.1 b.2))
+  | .unstranded => throw .InvalidStrand
+
+/-- `reduce(append, (interval.extract_sequence() for interval in …))` -/
+def extractBlocks (s : List Char) (st : Strand) : List Blk → R (List Char)
+  | [] => pure []
+  | b :: bs => do
+    let x ← extractBlock s b st
+    let xs ← extractBlocks s st bs
+    pure (x ++ xs)
+
+/-- `Location.extract_sequence` on a parent whose sequence is `s` -/
+def extractSeq (s : List Char) : Location → R (List Char)
+  | .single b st => extractBlock s b st
+  | .compound l => do
+      assertDirectional l.strand
+      if l.strand = .plus then extractBlocks s .plus l.blocks
+      else extractBlocks s .minus l.blocks.reverse
+  | .empty => throw .EmptyLocation
+
+/-- the location constructors, given a parent that carries a sequence of length `n`, refuse `end > n`
+    (`SingleInterval.__init__`; for a CompoundInterval `Parent.__init__` on `location.end = max(ends)`) -/
+def fitsSeq (l : Location) (n : Nat) : Bool := (locBlocks l).all (fun b => b.2 ≤ n)
+
+/-- harness `_chunk` + `seq_chunk_to_parent`: the bases of window `w` (reverse-complemented unless the strand is
+    plus); `SingleInterval(start, end, …)` needs `start ≤ end`, `Sequence.__init__` needs
+    `len(sequence) == len(location)`.  Answer: the chunk's sequence. -/
+def mkChunk (G : List Char) (w : Blk) (st : Strand) : R (List Char) := do
+  let _ ← mkSingle w.1 w.2 st
+  let plus := pySlice G w.1 w.2
+  let sq := if st = .plus then plus else revComp plus
+  if sq.length ≠ w.len then throw .MismatchedParent
+  pure sq
+
+def tSeqChunk : List Char := ['s','e','q','u','e','n','c','e','_','c','h','u','n','k']
+def tChromosome : List Char := ['c','h','r','o','m','o','s','o','m','e']
+def tTranscript : List Char := ['t','r','a','n','s','c','r','i','p','t']
+
+/-- what `liftover_location_to_seq_chunk_parent` is given as `parent_or_seq_chunk_parent` here -/
+inductive Target where
+  | chunk (w : Blk) (st : Strand) (seq : List Char)    -- result of `seq_chunk_to_parent`
+  | chrom (seq : List Char)                             -- `Parent(id=…, sequence=Sequence(…, type=CHROMOSOME))`
+
+def Target.seq : Target → List Char
+  | .chunk _ _ s => s
+  | .chrom s => s
+
+/-- `AbstractInterval.liftover_location_to_seq_chunk_parent(location, target)` for a location whose ancestors are
+    `ch` (both chromosome Parents carry the same id here, so the `require_parents_equal_…` gate is passed) -/
+def liftoverToTarget (c : Location) (ch : Chain) (t : Target) : R Location := do
+  -- `location.has_ancestor_of_type(SEQUENCE_CHUNK)`; an EmptyLocation has no parent at all
+  let loc ←
+    if c != .empty && hasAncestorOfType tSeqChunk ch then do
+      if ¬ hasAncestorOfType tChromosome ch then throw .NoSuchAncestor
+      let up ← liftToType tChromosome c ch
+      -- `.reset_parent(target.parent)`: that Parent carries no sequence (chunk) or is None (chromosome)
+      pure up.1
+    else pure c
+  match t with
+  | .chunk w st sq => do
+      -- the target has a sequence_chunk ancestor (itself) and a chromosome above it
+      let rel ← chunkDown loc w st
+      -- `.reset_parent(parent_or_seq_chunk_parent)`: the chunk carries sequence
+      if rel != .empty && ¬ fitsSeq rel sq.length then throw .InvalidPosition
+      pure rel
+  | .chrom sq =>
+      -- "whole genome": `location.reset_parent(parent_or_seq_chunk_parent)`
+      if loc == .empty then throw .EmptyLocation
+      else if ¬ fitsSeq loc sq.length then throw .InvalidPosition
+      else pure loc
+
+/-- the whole `relocate` operation of the harness: hierarchy construction, the call, the extraction -/
+def relocate (G : List Char) (w1 : Blk) (s1 : Strand) (tx : Option Location) (c : Location)
+    (tgt : Option (Blk × Strand)) : R (Location × List Char) := do
+  let seqA ← mkChunk G w1 s1
+  let chunkLevel (pl : Option Location) : Level := ⟨['c','h','r',':','A'], tSeqChunk, some seqA, pl⟩
+  let chrLevel : Level := ⟨['c','h','r'], tChromosome, none, some (.single w1 s1)⟩
+  let (ch, len0) ← (match tx with
+    | none => pure ([chunkLevel none, chrLevel], seqA.length)
+    | some t => do
+        -- `chunk_a.reset_location(TXLOC)`: `Parent.__init__` refuses a placement that ends beyond the chunk
+        if t == .empty then throw .EmptyLocation
+        if ¬ fitsSeq t seqA.length then throw .InvalidPosition
+        let txSeq ← extractSeq seqA t
+        pure ([⟨['t','x'], tTranscript, some txSeq, none⟩, chunkLevel (some t), chrLevel], txSeq.length)
+    : R (Chain × Nat))
+  -- the child is constructed with its parent (which carries sequence)
+  if ¬ fitsSeq c len0 then throw .InvalidPosition
+  let target ← match tgt with
+    | some (w2, s2) => do let sq ← mkChunk G w2 s2; pure (Target.chunk w2 s2 sq)
+    | none => pure (Target.chrom G)
+  let m ← liftoverToTarget c ch target
+  if m == .empty then pure (m, [])
+  else do
+    let sq ← extractSeq target.seq m
+    pure (m, sq)
 
 end BioCantor.Model
